@@ -47,3 +47,5 @@ func VerifAggregate(queryStr string, batches [][]string) ([][]string, error) {
 	}
 	return out, nil
 }
+
+func (a *Aggregate) VerifRawQuery() string { return a.query.RawQuery }
